@@ -153,6 +153,43 @@ func genMutants(repo string, files []string, ranges map[string][][2]int, max int
 				if _, ok := siblingSwaps[x.Name]; ok {
 					counts["sibling"]++
 				}
+				if x.Name == "true" || x.Name == "false" {
+					counts["bool-lit"]++
+				}
+				if x.Name == "len" || x.Name == "cap" {
+					counts["len-cap"]++
+				}
+			case *ast.IncDecStmt:
+				counts["incdec"]++
+			case *ast.BranchStmt:
+				if x.Tok == token.BREAK || x.Tok == token.CONTINUE {
+					counts["branch"]++
+				}
+			case *ast.SliceExpr:
+				counts["slice-lo"]++
+				counts["slice-hi"]++
+			case *ast.IndexExpr:
+				counts["index"]++
+			case *ast.CallExpr:
+				if len(x.Args) >= 2 {
+					counts["swap-args"]++
+				}
+			case *ast.DeferStmt:
+				counts["undefer"]++
+			}
+			if be, ok := n.(*ast.BinaryExpr); ok && (be.Op == token.LAND || be.Op == token.LOR) {
+				counts["logic"]++
+			}
+			if is, ok := n.(*ast.IfStmt); ok && is.Else == nil && is.Init == nil && len(is.Body.List) == 1 {
+				switch is.Body.List[0].(type) {
+				case *ast.ReturnStmt, *ast.BranchStmt:
+					counts["del-guard"]++
+				case *ast.ExprStmt:
+					counts["del-guard"]++
+				}
+			}
+			if as, ok := n.(*ast.AssignStmt); ok && (as.Tok == token.ADD_ASSIGN || as.Tok == token.SUB_ASSIGN) {
+				counts["assign-op"]++
 			}
 			return true
 		})
@@ -170,6 +207,7 @@ func genMutants(repo string, files []string, ranges map[string][][2]int, max int
 				}
 				idx := -1
 				desc := ""
+				var undefer *ast.DeferStmt
 				ast.Inspect(g, func(n ast.Node) bool {
 					if desc != "" {
 						return false
@@ -229,9 +267,96 @@ func genMutants(repo string, files []string, ranges map[string][][2]int, max int
 							desc = fmt.Sprintf("%s:%d %s -> %s", rel, fs.Position(x.Pos()).Line, x.Name, to)
 							x.Name = to
 						}
+						if kind == "bool-lit" && (x.Name == "true" || x.Name == "false") && hit() {
+							to := map[string]string{"true": "false", "false": "true"}[x.Name]
+							desc = fmt.Sprintf("%s:%d %s -> %s", rel, fs.Position(x.Pos()).Line, x.Name, to)
+							x.Name = to
+						}
+						if kind == "len-cap" && (x.Name == "len" || x.Name == "cap") && hit() {
+							to := map[string]string{"len": "cap", "cap": "len"}[x.Name]
+							desc = fmt.Sprintf("%s:%d %s -> %s", rel, fs.Position(x.Pos()).Line, x.Name, to)
+							x.Name = to
+						}
+					case *ast.IncDecStmt:
+						if kind == "incdec" && hit() {
+							old := x.Tok
+							x.Tok = map[token.Token]token.Token{token.INC: token.DEC, token.DEC: token.INC}[old]
+							desc = fmt.Sprintf("%s:%d %s -> %s", rel, fs.Position(x.Pos()).Line, old, x.Tok)
+						}
+					case *ast.BranchStmt:
+						if kind == "branch" && (x.Tok == token.BREAK || x.Tok == token.CONTINUE) && hit() {
+							old := x.Tok
+							x.Tok = map[token.Token]token.Token{token.BREAK: token.CONTINUE, token.CONTINUE: token.BREAK}[old]
+							desc = fmt.Sprintf("%s:%d %s -> %s", rel, fs.Position(x.Pos()).Line, old, x.Tok)
+						}
+					case *ast.SliceExpr:
+						if kind == "slice-lo" && hit() {
+							if x.Low == nil {
+								x.Low = &ast.BasicLit{Kind: token.INT, Value: "1"}
+							} else {
+								x.Low = &ast.BinaryExpr{X: &ast.ParenExpr{X: x.Low}, Op: token.ADD, Y: &ast.BasicLit{Kind: token.INT, Value: "1"}}
+							}
+							desc = fmt.Sprintf("%s:%d slice low bound +1", rel, fs.Position(x.Pos()).Line)
+						}
+						if kind == "slice-hi" && hit() {
+							if x.High != nil {
+								x.High = &ast.BinaryExpr{X: &ast.ParenExpr{X: x.High}, Op: token.SUB, Y: &ast.BasicLit{Kind: token.INT, Value: "1"}}
+								desc = fmt.Sprintf("%s:%d slice high bound -1", rel, fs.Position(x.Pos()).Line)
+							}
+						}
+					case *ast.IndexExpr:
+						if kind == "index" && hit() {
+							x.Index = &ast.BinaryExpr{X: &ast.ParenExpr{X: x.Index}, Op: token.ADD, Y: &ast.BasicLit{Kind: token.INT, Value: "1"}}
+							desc = fmt.Sprintf("%s:%d index +1", rel, fs.Position(x.Pos()).Line)
+						}
+					case *ast.CallExpr:
+						if kind == "swap-args" && len(x.Args) >= 2 && hit() {
+							x.Args[0], x.Args[1] = x.Args[1], x.Args[0]
+							desc = fmt.Sprintf("%s:%d swap the first two call arguments", rel, fs.Position(x.Pos()).Line)
+						}
+					case *ast.DeferStmt:
+						if kind == "undefer" && hit() {
+							desc = fmt.Sprintf("%s:%d defer -> immediate call", rel, fs.Position(x.Pos()).Line)
+							x.Call = &ast.CallExpr{Fun: &ast.FuncLit{Type: &ast.FuncType{Params: &ast.FieldList{}}, Body: &ast.BlockStmt{List: []ast.Stmt{&ast.ExprStmt{X: x.Call}}}}}
+							// defer func(){ call }() keeps the deferral; the mutant is the immediate call: rewrite below
+							undefer = x
+						}
+					}
+					if be, ok := n.(*ast.BinaryExpr); ok && kind == "logic" && (be.Op == token.LAND || be.Op == token.LOR) && hit() {
+						old := be.Op
+						be.Op = map[token.Token]token.Token{token.LAND: token.LOR, token.LOR: token.LAND}[old]
+						desc = fmt.Sprintf("%s:%d %s -> %s", rel, fs.Position(be.Pos()).Line, old, be.Op)
+					}
+					if is, ok := n.(*ast.IfStmt); ok && kind == "del-guard" && is.Else == nil && is.Init == nil && len(is.Body.List) == 1 {
+						switch is.Body.List[0].(type) {
+						case *ast.ReturnStmt, *ast.BranchStmt, *ast.ExprStmt:
+							if hit() {
+								desc = fmt.Sprintf("%s:%d delete guard (if with a single return/branch/call)", rel, fs.Position(is.Pos()).Line)
+								is.Cond = &ast.Ident{Name: "false"}
+							}
+						}
+					}
+					if as, ok := n.(*ast.AssignStmt); ok && kind == "assign-op" && (as.Tok == token.ADD_ASSIGN || as.Tok == token.SUB_ASSIGN) && hit() {
+						old := as.Tok
+						as.Tok = map[token.Token]token.Token{token.ADD_ASSIGN: token.SUB_ASSIGN, token.SUB_ASSIGN: token.ADD_ASSIGN}[old]
+						desc = fmt.Sprintf("%s:%d %s -> %s", rel, fs.Position(as.Pos()).Line, old, as.Tok)
 					}
 					return true
 				})
+				if undefer != nil {
+					// replace the defer statement by the call itself, executed at once
+					inner := undefer.Call.Fun.(*ast.FuncLit).Body.List[0]
+					ast.Inspect(g, func(n ast.Node) bool {
+						if bl, ok := n.(*ast.BlockStmt); ok {
+							for k, st := range bl.List {
+								if st == ast.Stmt(undefer) {
+									bl.List[k] = inner
+								}
+							}
+						}
+						return true
+					})
+				}
 				if desc == "" {
 					continue
 				}
